@@ -11,7 +11,12 @@
 (* idempotent, checked there on every generated module).  The second        *)
 (* component is the numbering of labels (num): label numbers are printed    *)
 (* in the text and written to the binary stream, so they are part of what   *)
-(* a faithful writer/reader pair preserves.                                 *)
+(* a faithful writer/reader pair preserves.  The abstract module set also   *)
+(* carries, per module, the temporary-name counter tmp (MIRModule.tla: the  *)
+(* largest N of an item named .lc<N>): it is part of the projection, so     *)
+(* RoundTripId requires every reader (scan and read) to restore it, and     *)
+(* SameRun shows it: loading a module creates .lc<tmp+1> ... for string and *)
+(* floating point operands, which must not exist already.                   *)
 (*                                                                          *)
 (* Properties (invariants of this machine; the binding replays every        *)
 (* history on the real library and compares projections, texts and bytes):  *)
